@@ -18,7 +18,7 @@ Apply ==
   CASE O.name = "reset"     -> <<>>
     [] O.name = "leaf"      -> Append(pool, Leaf(O.a, O.b))
     [] O.name = "at"        -> [pool EXCEPT ![O.i] = At(@, O.a)]
-    [] O.name = "with_span" -> [pool EXCEPT ![O.i] = WithSpan(@, O.s)]
+    [] O.name = "with_span" -> [pool EXCEPT ![O.i] = WithSpan(@, SpanAt(<<O.s>>, "item"))]
     [] O.name = "multiple"  -> Append(RemoveAll(pool, Range(O.sel)),
                                       Multiple([j \in 1..Len(O.sel) |-> pool[O.sel[j]]]))
     [] O.name = "flatten"   -> [pool EXCEPT ![O.i] = Flatten(@)]
